@@ -206,9 +206,13 @@ package litefs
 //@   ghost sbOK bool = false
 //@   ghost cur string = ""
 //@   on call Store.streamBackupDB assume txidBounded(s, arg2)
-//@   on call Store.streamBackupDB assert phase == 0 && posMap != nil && samePos(arg3, posMap[arg2]) ; then phase = 1, cur = arg2, sbOK = (ret1 == nil)
+//@   ghost gotTX ltx.TXID = 0
+//@   ghost gotCk ltx.Checksum = 0
+//@   on call Store.streamBackupDB assert phase == 0 && posMap != nil && samePos(arg3, posMap[arg2]) ; then phase = 1, cur = arg2, sbOK = (ret1 == nil), gotTX = ret0.TXID, gotCk = ret0.PostApplyChecksum
 //@   on call errors.As assert phase == 1 ; then phase = 2, pm = ret0
-//@   on call Store.restoreDBFromBackup assert phase == 2 && pm && arg2 == cur ; then phase = (ret1 == nil ? 3 : 4)
+//@   on call Store.restoreDBFromBackup assert phase == 2 && pm && arg2 == cur ; then phase = (ret1 == nil ? 3 : 4), gotTX = ret0.TXID, gotCk = ret0.PostApplyChecksum
+// the position recorded for the database (or deleted when zero) is the one the upload / the restore just returned
+//@   on call ltx.Pos.IsZero assert arg0.TXID == gotTX && arg0.PostApplyChecksum == gotCk
 //@   on call ltx.Pos.IsZero assert (phase == 2 && !pm && sbOK) || phase == 3 ; then phase = 0
 //@   loop 1 invariant storeBackupWF(s) && noNilDBs(s) && dirtySet != nil && subOK(subscription, s) && phase == 0
 //@   loop 2 invariant storeBackupWF(s) && noNilDBs(s) && dirtySet != nil && subOK(subscription, s) && phase == 0
